@@ -204,61 +204,65 @@ Definition to_fri_openings (os : opening_set) : list (list Fp2) :=
     ++ os_quotient os ++ (if has_lookup then os_lookup_zs os else []);
     os_zs_next os ++ (if has_lookup then os_lookup_zs_next os else []) ].
 
-Fixpoint fri_betas_loop (c : challenger) (caps : list (list digest)) : list Fp2 * challenger :=
-  match caps with
-  | [] => ([], c)
-  | cap :: t =>
-    let c1 := observe_cap c cap in
-    let '(b, c2) := get_extension_challenge c1 in
-    let '(bs, c3) := fri_betas_loop c2 t in (b :: bs, c3)
-  end.
+(* The transcript as data: what is observed, in which order, and where challenges are drawn.
+   get_challenges below is DEFINED as the interpretation of this list, so that statements about
+   the order and content of the transcript are statements about the verifier model itself. *)
+Inductive chop : Type := Observe (xs : list Fp) | Squeeze (n : nat).
 
-Fixpoint query_indices_loop (c : challenger) (n lde_size : nat) : list nat * challenger :=
-  match n with
-  | O => ([], c)
-  | S n' =>
-    let '(x, c1) := get_challenge c in
-    let '(xs, c2) := query_indices_loop c1 n' lde_size in
-    (Z.to_nat (fval x mod Z.of_nat lde_size) :: xs, c2)
+Fixpoint run_ops (c : challenger) (ops : list chop) : list (list Fp) :=
+  match ops with
+  | [] => []
+  | Observe xs :: t => run_ops (observe_elements c xs) t
+  | Squeeze n :: t => let '(out, c') := get_n_challenges c n in out :: run_ops c' t
   end.
-
-Definition fri_challenges_of (c : challenger) (caps : list (list digest)) (final : list Fp2) (pow_witness : Fp)
-           (degree_bits : nat) (f : fri_config) : fri_challenges :=
-  let lde_size := 2 ^ (degree_bits + rate_bits f) in
-  let '(alpha, c1) := get_extension_challenge c in
-  let '(betas, c2) := fri_betas_loop c1 caps in
-  let c3 := observe_ext_elements c2 final in
-  let c4 := observe_element c3 pow_witness in
-  let '(resp, c5) := get_challenge c4 in
-  let '(idxs, _) := query_indices_loop c5 (num_query_rounds f) lde_size in
-  {| fri_alpha := alpha; fri_betas := betas; fri_pow_response := resp; fri_query_indices := idxs |}.
 
 Definition NUM_COINS_LOOKUP : nat := 4.
 
-Definition get_challenges (cd : common_data) (vo : verifier_only) (pr : proof) (pi_hash : digest) : proof_challenges :=
+Definition fri_params_elements (p : fri_params) : list Fp :=
+  let f := config p in
+  [ofn (rate_bits f); ofn (cap_height f); ofn (proof_of_work_bits f)]
+  ++ strategy_serialize (reduction_strategy f) ++ [ofn (num_query_rounds f)]
+  ++ [if hiding p then toFp 1 else toFp 0; ofn (degree_bits p)] ++ map ofn (reduction_arity_bits p).
+
+Definition fri_ops (caps : list (list digest)) (final : list Fp2) (pow_witness : Fp) (num_queries : nat) : list chop :=
+  [Squeeze 2]                                                        (* fri_alpha *)
+  ++ flat_map (fun cap => [Observe (concat cap); Squeeze 2]) caps    (* fri_betas *)
+  ++ [Observe (flatten2 final); Observe [pow_witness]; Squeeze 1;    (* pow response *)
+      Squeeze num_queries].                                          (* query indices *)
+
+Definition plonk_ops (cd : common_data) (vo : verifier_only) (pr : proof) (pi_hash : digest) : list chop :=
   let nch := num_challenges (cd_config cd) in
   let has_lookup := negb (Nat.eqb (num_lookup_polys cd) 0) in
-  let c := observe_fri_params ch_new (cd_fri_params cd) in
-  let c := observe_elements c (circuit_digest vo) in
-  let c := observe_elements c pi_hash in
-  let c := observe_cap c (wires_cap pr) in
-  let '(betas, c) := get_n_challenges c nch in
-  let '(gammas, c) := get_n_challenges c nch in
-  let '(deltas, c) :=
-      if has_lookup then
-        let '(add, c') := get_n_challenges c (NUM_COINS_LOOKUP * nch - 2 * nch) in
-        (betas ++ gammas ++ add, c')
-      else ([], c) in
-  let c := observe_cap c (zs_pp_cap pr) in
-  let '(alphas, c) := get_n_challenges c nch in
-  let c := observe_cap c (quotient_cap pr) in
-  let '(zeta, c) := get_extension_challenge c in
-  let c := fold_left observe_ext_elements (to_fri_openings (openings pr)) c in
-  {| plonk_betas := betas; plonk_gammas := gammas; plonk_alphas := alphas; plonk_deltas := deltas;
-     plonk_zeta := zeta;
-     pc_fri := fri_challenges_of c (fp_caps (opening_proof pr)) (fp_final (opening_proof pr))
-                                 (fp_pow_witness (opening_proof pr)) (degree_bits (cd_fri_params cd))
-                                 (cfg_fri (cd_config cd)) |}.
+  [ Observe (fri_params_elements (cd_fri_params cd));
+    Observe (circuit_digest vo);
+    Observe pi_hash;
+    Observe (concat (wires_cap pr));
+    Squeeze nch; Squeeze nch ]                                       (* betas, gammas *)
+  ++ (if has_lookup then [Squeeze (NUM_COINS_LOOKUP * nch - 2 * nch)] else [])   (* extra deltas *)
+  ++ [ Observe (concat (zs_pp_cap pr)); Squeeze nch;                 (* alphas *)
+       Observe (concat (quotient_cap pr)); Squeeze 2 ]               (* zeta *)
+  ++ map (fun b => Observe (flatten2 b)) (to_fri_openings (openings pr))
+  ++ fri_ops (fp_caps (opening_proof pr)) (fp_final (opening_proof pr)) (fp_pow_witness (opening_proof pr))
+             (num_query_rounds (cfg_fri (cd_config cd))).
+
+Definition ext_of (l : list Fp) : Fp2 := (nth 0 l (toFp 0), nth 1 l (toFp 0)).
+
+Definition get_challenges (cd : common_data) (vo : verifier_only) (pr : proof) (pi_hash : digest) : proof_challenges :=
+  let has_lookup := negb (Nat.eqb (num_lookup_polys cd) 0) in
+  let outs := run_ops ch_new (plonk_ops cd vo pr pi_hash) in
+  let betas := nth 0 outs [] in
+  let gammas := nth 1 outs [] in
+  let k := if has_lookup then 3 else 2 in
+  let deltas := if has_lookup then betas ++ gammas ++ nth 2 outs [] else [] in
+  let ncaps := length (fp_caps (opening_proof pr)) in
+  let lde_size := 2 ^ (degree_bits (cd_fri_params cd) + rate_bits (cfg_fri (cd_config cd))) in
+  {| plonk_betas := betas; plonk_gammas := gammas; plonk_alphas := nth k outs []; plonk_deltas := deltas;
+     plonk_zeta := ext_of (nth (k + 1) outs []);
+     pc_fri := {| fri_alpha := ext_of (nth (k + 2) outs []);
+                  fri_betas := map (fun i => ext_of (nth (k + 3 + i) outs [])) (seq 0 ncaps);
+                  fri_pow_response := nth 0 (nth (k + 3 + ncaps) outs []) (toFp 0);
+                  fri_query_indices := map (fun x => Z.to_nat (fval x mod Z.of_nat lde_size))
+                                           (nth (k + 4 + ncaps) outs []) |} |}.
 
 (* ------------------------------------------------------------------ shape validation *)
 Definition num_quotient_polys (cd : common_data) : nat := num_challenges (cd_config cd) * quotient_degree_factor cd.
